@@ -25,7 +25,8 @@ NT_RULE = ('reference sets of 1-8 species over 1-5 descriptors (elements or a cu
            'with present and absent descriptors, T 50-5000 K, histories of append/extend/pop + refit.  '
            'non-trivial = >=2 descriptors or rank-deficient or a history with a refit; distinct = canonical JSON')
 REQUIRED_ORACLES = ['X1', 'X2', 'X3', 'X4', 'X5']
-REQUIRED_CLASSES = ['rank:unique', 'rank:overdetermined', 'rank:deficient', 'rank:deficient:square_cond_below_1/eps', 'tref:equal', 'tref:spread',
+REQUIRED_CLASSES = ['tref:spread<0.01K', 'descriptor:signed_counts', 'descriptor:column_total<=0', 'T:within_1e-5_of_T_ref',
+                    'history:second_live_set', 'rank:unique', 'rank:overdetermined', 'rank:deficient', 'rank:deficient:square_cond_below_1/eps', 'tref:equal', 'tref:spread',
                     'descriptor:elements', 'descriptor:custom', 'history:append', 'history:pop', 'history:extend', 'history:dict_copy',
                     'target:absent_descriptor']
 REQUIRED_PROBES = ['References.fit_HoRT_offset', 'References.get_descriptors_matrix', 'References.get_HoRT',
@@ -38,15 +39,16 @@ DESC_POOL = ['H', 'C', 'O', 'N', 'Pt', 'Ni', 'S']
 GROUP_POOL = ['CH3', 'CH2', 'OH', 'CO', 'NH2']
 
 
-def _comp_row(rng, descs):
+def _comp_row(rng, descs, signed=False):
     while True:
-        row = {d: rng.choice([0, 0, 1, 1, 2, 3, 4]) for d in descs}
+        # a descriptor dictionary other than elements may carry signed counts (charge, group corrections)
+        row = {d: rng.choice([-2, -1, -1, 0, 0, 1, 1, 2, 3] if signed else [0, 0, 1, 1, 2, 3, 4]) for d in descs}
         if any(row.values()):
             return {d: v for d, v in row.items() if v or rng.random() < 0.2}
 
 
-def _ref(rng, i, descs, T_ref):
-    return {'name': 'ref%d' % i, 'comp': _comp_row(rng, descs),
+def _ref(rng, i, descs, T_ref, signed=False):
+    return {'name': 'ref%d' % i, 'comp': _comp_row(rng, descs, signed),
             'model': S.gen_statmech(rng, name='ref%d' % i, gas=rng.choice([True, False]), with_elements=False),
             'T_ref': T_ref, 'HoRT_ref': round(rng.uniform(-300, 300), 4)}
 
@@ -85,11 +87,13 @@ def generate(rng, tier, near_regular=None):
     n = {'unique': nd, 'over': min(8, nd + rng.randint(1, 3)), 'deficient': rng.choice([rng.randint(1, 8), nd, nd]),
          'any': rng.randint(1, 8), 'near_regular': nd}[kind]
     spread = rng.random() < 0.25
+    width = rng.choice([0.5, 0.5, 2e-3, 2e-6])          # references measured at slightly different temperatures
     T0 = rng.choice([298.15, 298.15, round(rng.uniform(200, 600), 2)])
+    signed = custom and near_regular is None and rng.random() < 0.4
     refs = []
     for i in range(n):
-        T_ref = round(T0 + (rng.uniform(-0.5, 0.5) if spread else 0.0), 4)
-        refs.append(_ref(rng, i, descs, T_ref))
+        T_ref = round(T0 + (rng.uniform(-width, width) if spread else 0.0), 9)
+        refs.append(_ref(rng, i, descs, T_ref, signed))
     if kind == 'near_regular':
         for r, row in zip(refs, near_regular):
             r['comp'] = {d: v for d, v in zip(descs, row) if v or rng.random() < 0.2}
@@ -125,12 +129,14 @@ def generate(rng, tier, near_regular=None):
         ops.insert(0, ['pop'])
     targets = []
     for t in range(3):
-        comp = _comp_row(rng, descs)
+        comp = _comp_row(rng, descs, signed)
         if rng.random() < 0.4:
             comp[rng.choice([p for p in pool if p not in descs] or ['Xx'])] = rng.randint(1, 3)
         targets.append({'comp': comp, 'model': S.gen_statmech(rng, name='tgt%d' % t, gas=rng.choice([True, False]),
                                                               with_elements=False)})
     Ts = [round(S.logu(rng, 50, 5000), 3) for _ in range(3)]
+    # the neighbourhood of the reference temperature (not the temperature itself) and the temperature itself
+    Ts += [T0 * (1 + rng.choice([-1, 1]) * rng.choice([1e-9, 1e-6, 4e-6, 9e-6, 3e-5])), T0]
     return {'descriptor': 'groups' if custom else 'elements', 'descs': descs, 'refs': refs, 'n0': n0, 'ops': ops,
             'targets': targets, 'Ts': Ts}
 
@@ -194,6 +200,12 @@ def _check_set(ctx, spec, refs_obj, current, tag):
     Trefs = [r['T_ref'] for r in current]
     equal_T = max(Trefs) == min(Trefs)
     ctx.cls('tref:equal' if equal_T else 'tref:spread')
+    if not equal_T and max(Trefs) - min(Trefs) < 1e-2:
+        ctx.cls('tref:spread<0.01K')
+    if any(v < 0 for r in current for v in r['comp'].values()):
+        ctx.cls('descriptor:signed_counts')
+        if A.size and (A.sum(axis=0) <= 0).any() and (A != 0).any(axis=0)[A.sum(axis=0) <= 0].any():
+            ctx.cls('descriptor:column_total<=0')
     if rank == nd == n:
         rk = 'unique'
     elif rank == nd:
@@ -250,6 +262,8 @@ def _check_set(ctx, spec, refs_obj, current, tag):
         m3 = dict(mech)
         energies = {}
         for T in spec['Ts']:
+            if T != T_ref and abs(T / T_ref - 1.0) <= 1e-5:
+                ctx.cls('T:within_1e-5_of_T_ref')
             vals = {}
             bad = False
             for nm, fn, kw in (('H_on', on.get_HoRT, {}), ('H_off', off.get_HoRT, {}),
@@ -342,6 +356,18 @@ def run_case(spec, ctx):
         if r is core.NOVALUE:
             return
         _check_set(ctx, spec, refs, [spec['refs'][i] for i in current], op[0])
+    # --- a second, differently fitted reference set is alive at the same time and is asked about the same
+    #     compositions: the first set's answers must not move
+    if (ctx.case_index or 0) % 2 == 0:
+        cur = [spec['refs'][i] for i in current]
+        objs2 = [_mk_reference(dict(r, HoRT_ref=r['HoRT_ref'] + 11.0 + 7.5 * k), descriptor) for k, r in enumerate(cur)]
+        refs2 = ctx.call('X2', {'step': 'construct_second_set'}, References, references=objs2, descriptor=descriptor)
+        if refs2 is not core.NOVALUE:
+            ctx.cls('history:second_live_set')
+            for item in cur + spec['targets']:
+                sp2 = _species(item['model'], item['comp'], descriptor, refs2)
+                ctx.call('X3', {'step': 'second_set_get_HoRT'}, sp2.get_HoRT, T=spec['Ts'][0])
+            _check_set(ctx, spec, refs, cur, 'other_set_evaluated')
     for cp, off0, cur0 in shadows:
         same = set(cp.offset) == set(off0) and all(cp.offset[k_] == off0[k_] for k_ in off0)
         ctx.check('X2', same, {'step': 'dict_copy_changed_by_refit_of_original'}, before=off0, after=dict(cp.offset))
